@@ -163,3 +163,107 @@ Contract(MODEL, 'evaluate_sizes.evaluate_struct_size', ['C04', 'C03', 'C05', 'C0
                                                                          vm.state['cls_m'], True)})},
          notes=['member alignments in {1,2,4,8} (established by evaluate_member_size / evaluate_array_and_optional_size / '
                 'evaluate_partial_padding_size contracts)'])
+
+
+# ------------------------------------------------------------------ evaluate_array_and_optional_size
+
+def arropt_setup(vm, module, env):
+    from vf.pyvc import SBool
+    m = vm.fresh_ref('member', model_class(vm, module, 'StructMember'))
+    H = lambda a: z3.Select(vm.heap_array(a), m.t)
+    # requires: evaluate_member_size succeeded for this member (base type size S and alignment A)
+    vm.assume(z3.And(z3.Not(H('byte_size#none')), z3.Not(H('alignment#none')), _in(H('alignment'), ALIGNS), H('byte_size') >= 0))
+    # StructMember.__init__ asserts: at most one of (bound or size), greedy, optional
+    arr = z3.Or(H('bound'), H('size'))
+    vm.assume(z3.And(z3.Not(z3.And(arr, H('greedy'))), z3.Not(z3.And(arr, H('optional'))), z3.Not(z3.And(H('greedy'), H('optional')))))
+    # cross_reference: numeric_size is set (positive: parser's positive_expression) iff size is given
+    vm.assume(z3.If(H('size'), z3.And(z3.Not(H('numeric_size#none')), H('numeric_size') > 0), H('numeric_size#none')))
+    st = {'args': [m], 'm': m, 'S': H('byte_size'), 'A': H('alignment'), 'NS': H('numeric_size'),
+          'size': H('size'), 'bound': H('bound'), 'greedy': H('greedy'), 'optional': H('optional'),
+          'closure_env': {}}
+    return st
+
+
+def arropt_post(vm, st, result):
+    m = st['m']
+    a, b = vm.load(m, 'alignment'), vm.load(m, 'byte_size')
+    S, A = SInt(st['S']), SInt(st['A'])
+    is_array = z3.Or(st['bound'], st['size'], st['greedy'])
+    exp_size = z3.If(is_array, z3.If(st['size'], st['S'] * st['NS'], 0),
+                     z3.If(st['optional'], spec_int(vm, 'opt_size', S, A), st['S']))
+    exp_al = z3.If(z3.And(z3.Not(is_array), st['optional']), spec_int(vm, 'opt_alignment', A), st['A'])
+    return [('byte_size: n*S | 0 | opt_size | S', z3.And(z3.Not(b.isnone), b.val == exp_size)),
+            ('alignment: opt_alignment | A', z3.And(z3.Not(a.isnone), a.val == exp_al))]
+
+
+Contract(MODEL, 'evaluate_sizes.evaluate_array_and_optional_size', ['C04', 'C03', 'C08'], arropt_setup, arropt_post,
+         shapes=SHAPES, modifies=['alignment', 'byte_size'])
+
+
+# ------------------------------------------------------------------ _SerializableContainer.calc_wire_stiffness
+
+def stiff_setup(vm, module, env):
+    from vf.pyvc import Ref
+    node = vm.fresh_ref('node', model_class(vm, module, 'Struct'))
+    members = new_members(vm, module, 'StructMember')
+    vm.path.objattrs[(str(node.t), '_value')] = members
+    f, n = members.fn, members.length
+    j = z3.Int('j')
+    rng = lambda x: z3.And(0 <= x, x < n)
+    MK = z3.Function('MK', Ref, z3.IntSort())          # stiffness of the member's (typedef-resolved) base type
+    H = lambda a, t: z3.Select(vm.heap_array(a), t)
+    greedy = lambda t: H('greedy', t)
+    dynarr = lambda t: z3.And(H('bound', t), z3.Not(H('size', t)))
+    vm.assume(z3.ForAll([j], z3.Implies(rng(j), _in(MK(f(j)), (0, 1, 2))), patterns=[f(j)]))
+    # legality (C12, checked by the parser): greedy only last; sized arrays / optionals hold fixed types;
+    # StructMember.__init__ assertion: at most one of (bound or size), greedy, optional
+    vm.assume(z3.ForAll([j], z3.Implies(rng(j), z3.And(
+        z3.Implies(greedy(f(j)), j == n - 1),
+        z3.Implies(z3.Or(H('size', f(j)), H('optional', f(j))), MK(f(j)) == 0),
+        z3.Not(z3.And(z3.Or(H('bound', f(j)), H('size', f(j))), greedy(f(j)))))), patterns=[f(j)]))
+    # spec: stiffness of a member = UNLIMITED if greedy array, at least DYNAMIC if dynamic array, else base type's
+    ms = lambda t: z3.If(greedy(t), 2, z3.If(z3.And(dynarr(t), MK(t) < 1), 1, MK(t)))
+    SK = vm.fresh('SK')
+    vm.assume(z3.ForAll([j], z3.Implies(rng(j), ms(f(j)) <= SK), patterns=[f(j)]))
+    w = vm.fresh('w')
+    vm.assume(z3.If(n > 0, z3.And(rng(w), ms(f(w)) == SK), SK == 0))
+    st = {'args': [node], 'node': node, 'members': members, 'MK': MK, 'SK': SK, 'closure_env': {},
+          'pre_kind': vm.heap_array('kind')}
+    vm.state = st
+    return st
+
+
+def _callee_member_stiffness(vm, args, kwargs):
+    """assumed contract of Typedef.calc_wire_stiffness on a member (proved separately below):
+    member.kind := stiffness of its base type; nothing else changes"""
+    m = args[0]
+    vm.store(m, 'kind', SInt(vm.state['MK'](m.t)))
+    return None
+
+
+def stiff_loop_inv(vm, env, k):
+    st = vm.state
+    f = st['members'].fn
+    j = z3.Int('j')
+    kind = vm.heap_array('kind')
+    return [('kinds<k', z3.ForAll([j], z3.Implies(z3.And(0 <= j, j < k), z3.Select(kind, f(j)) == st['MK'](f(j))),
+                                  patterns=[f(j)]))]
+
+
+def stiff_post(vm, st, result):
+    node = st['node']
+    k = vm.load(node, 'kind')
+    f, n = st['members'].fn, st['members'].length
+    j = z3.Int('j')
+    kind = vm.heap_array('kind')
+    return [('kind==stiff(struct)', k.t == st['SK']),
+            ('member kinds', z3.ForAll([j], z3.Implies(z3.And(0 <= j, j < n), z3.Select(kind, f(j)) == st['MK'](f(j))),
+                                       patterns=[f(j)]))]
+
+
+Contract(MODEL, '_SerializableContainer.calc_wire_stiffness', ['C04', 'C12'], stiff_setup, stiff_post,
+         shapes=SHAPES, modifies=['kind'],
+         loops={0: LoopAnn(stiff_loop_inv, index='k', modifies=['kind'])},
+         callees={'_Container._check_members_type': lambda vm, a, k: None,
+                  'Typedef.calc_wire_stiffness': _callee_member_stiffness},
+         notes=['legality preconditions: greedy member only last, sized arrays and optionals hold fixed types (C12)'])
